@@ -87,7 +87,7 @@ def h_clean(env, n=3, line=True, feature="tomo_id", keep_greater=True, groups=Tr
 MAPS = {"3x1x1": (3, 1, 1), "2x2x1": (2, 2, 1), "3x2x1": (3, 2, 1), "2x2x2": (2, 2, 2)}
 
 
-def h_peaks(env, shape="2x2x1", diameter=1.5, numbering=0, order="zxz"):
+def h_peaks(env, shape="2x2x1", diameter=1.5, numbering=0, order="zxz", big_list=False):
     tm = env.module("tmana")
     shp = MAPS[shape]
     nv = shp[0] * shp[1] * shp[2]
@@ -109,6 +109,20 @@ def h_peaks(env, shape="2x2x1", diameter=1.5, numbering=0, order="zxz"):
         scores = np.array(sc, dtype=float).reshape(shp)
         anglist = np.array(al, dtype=float)
     angmap = (np.arange(nv).reshape(shp) % 3 + numbering).astype(float)
+    if big_list:
+        # an angle list as long as real ones (tens of thousands of rows): the map points at rows 5, 33000 and 39999
+        used = [5, 33000, 39999]
+        L = 40000
+        if env.mode == "sym":
+            big = np.zeros((L, 3)).astype(object)
+        else:
+            big = np.zeros((L, 3))
+        for r_, u in enumerate(used):
+            for c in range(3):
+                big[u, c] = al[r_][c]
+        anglist = big
+        angmap = np.array([used[k % 3] for k in range(nv)], dtype=float).reshape(shp) + numbering
+        al = {u: al[r_] for r_, u in enumerate(used)}
     if order == "zzx":
         # the column order option applies to angle-list FILES (phi, psi, theta per line): concrete values through a real csv
         al = [[10.0 * (r + 1) + c for c in range(3)] for r in range(3)]
@@ -157,7 +171,7 @@ def jobs(tier, seed):
          ("h_clean", {"n": 2, "line": False, "feature": "object_id", "keep_greater": True}),
          ("h_clean", {"n": 3, "line": True, "feature": "tomo_id", "keep_greater": True, "groups": False, "ties": True}),
          ("h_clean", {"n": 2, "line": True, "feature": "class", "keep_greater": False, "ties": True}),
-         ("h_peaks", {"shape": "3x1x1", "diameter": 1.5, "numbering": 0, "order": "zxz"}),
+         ("h_peaks", {"shape": "3x1x1", "diameter": 1.5, "numbering": 0, "order": "zxz"}), ("h_peaks", {"shape": "3x1x1", "diameter": 1.0, "numbering": 1, "order": "zxz", "big_list": True}),
          ("h_peaks", {"shape": "2x2x1", "diameter": 1.5, "numbering": 0, "order": "zxz"}),
          ("h_peaks", {"shape": "2x2x1", "diameter": 1.0, "numbering": 1, "order": "zzx"})]
     if tier == "thorough":
